@@ -1,3 +1,4 @@
+// build: no-xen
 //! C03: histories of Bytes<GuestAddress> operations (write/read/slices/objects/atomics/in-memory
 //! streams) on GuestMemoryMmap and on MockMem (see c02.rs); after every step ALL region contents
 //! are re-read through the raw host pointers.
